@@ -268,6 +268,14 @@ def run_prog(p, lib):
             return np.einsum(sig, a, full)
         return da.blockwise(_Contract(sig, p["conc"]), tuple(out), a, tuple(ia), b, tuple(ib),
                             concatenate=True if p["conc"] else None, dtype=np.result_type(a.dtype, b.dtype))
+    if op == "bwself":  # the SAME array twice with different index strings: out_ij = a_ij + a_ji (generalised by `perm`)
+        a = run_prog(p["a"], lib)
+        perm = p["perm"]
+        if lib == "np":
+            return a + a.transpose(perm)
+        ind = list(range(a.ndim))
+        ib = [perm.index(m) for m in ind]   # axis m of `a` carries the output symbol k with perm[k] == m
+        return da.blockwise(_AlignAdd(ind, ib, ind), tuple(ind), a, tuple(ind), a, tuple(ib), dtype=a.dtype)
     if op == "bw2":  # two-argument blockwise with explicit index strings: f(a, b) = a + b (broadcast by index)
         a = run_prog(p["a"], lib)
         b = run_prog(p["b"], lib)
@@ -668,6 +676,15 @@ class ProgGen:
             if r.random() < 0.5:
                 q["chunks"][0] = list(self._chunks_of(p, -1)) if self._chunks_of(p, -1) else q["chunks"][0]
             return {"op": "dot", "a": p, "b": q}
+        if op == "bwself":
+            if kind in "bMm" or nd < 2:
+                return None
+            # a non-trivial permutation under which the shape is invariant
+            perms = [list(q) for q in itertools.permutations(range(nd))
+                     if list(q) != list(range(nd)) and all(x.shape[q[k]] == x.shape[k] for k in range(nd))]
+            if not perms:
+                return None
+            return {"op": "bwself", "a": p, "perm": r.choice(perms)}
         if op == "bwc":
             if kind in "bMm" or nd < 1:
                 return None
